@@ -41,6 +41,12 @@ CHECKS["C16"] = dict(
     note="Trusts TLC, hook H2 (token export through the real Lexer.Lex loop) and ast String(); corpus- and size-bounded on the implementation side.",
     design="§5 C16")
 
+CHECKS["C17"] = dict(
+    technique="TLA+ spec PanLiterals (digit Horner over BigInt, exponent forms, escape table, name pattern): TLC enumerates spellings and prescribes value / rejection / working name, each replayed into the real interpreter; float literals recorded from the interpreter are validated as nearest doubles by TLC with integer arithmetic (trace validation)",
+    text="Bounded-exhaustive spelling families (4 bases with separators, exponent forms, strings/raw strings by pieces, identifiers incl. reserved-word derivatives) plus boundary and seeded random spellings around 2^53/2^63/2^64, judged against exact BigInt values; floats judged by an exact correct-rounding inequality.",
+    note="Trusts TLC, BigInt (validated by MC_BigInt in C10) and the worker's canonical rendering; escapes the reference does not mention and non-integer exponent forms are logged, not judged.",
+    design="§5 C17")
+
 NOT_YET = {}
 
 def main():
